@@ -39,7 +39,7 @@ func init() {
 		ID: "C20", Gen: genC20, GenRace: genC20, Run: runC20, Quick: 400, Thorough: 40000, RaceQuick: 60, RaceThorough: 3000,
 		Real: []string{"cmd/collector: addIPFIXMessage (rendering, cap / eviction), flowRecordHandler, resetRecordHandler (the file is compiled as an importable package by the overlay; only its package clause is rewritten)", "pkg/entities message / record accessors"},
 		Stub: []string{"HTTP server and OS signals (handlers are called directly with httptest.ResponseRecorder)", "goroutine scheduling (sim layer: seeded baton scheduler with preemptions; race layer: Go scheduler under the race detector)"},
-		Rule: "histories of message arrivals (template and data, all supported field types), GET /records with any count / format, POST /reset and invalid requests from concurrent tasks; a fraction of runs is pre-filled to the 4096 cap so that eviction happens during the concurrent part; invoke/return history checked with porcupine against a bounded FIFO window; non-trivial = at least one query overlapping an arrival or the cap reached; distinct = distinct event-log hash (sim) / plan seed (race)",
+		Rule: "histories of message arrivals (template and data, all supported field types), GET /records with any count / format, POST /reset and invalid requests from concurrent tasks; an eighth of the plans fill the store through the collecting process's decode path (valid messages between ones it has to refuse) and query the window; a fraction of runs is pre-filled to the 4096 cap so that eviction happens during the concurrent part; invoke/return history checked with porcupine against a bounded FIFO window; non-trivial = at least one query overlapping an arrival or the cap reached; distinct = distinct event-log hash (sim) / plan seed (race)",
 	})
 }
 
